@@ -26,6 +26,10 @@ PROP_ENTRIES = {
 
 
 # ---------------------------------------------------------------------------------- Verus side
+# std functions whose vstd contract does not relate the result to the `Seq<char>` view of a string
+WEAK_STD = re.compile(r'\.len\(\)')
+
+
 def verus_part(out: Outcome, prop: str, decls, tag=None):
     if not decls:
         return {}
@@ -110,8 +114,13 @@ def verus_part(out: Outcome, prop: str, decls, tag=None):
                     key = '%s::%s' % (did, (dg['fn'] or 'derive') + '#type_invariant')
                     props = ['C05']
                 if prop in props:
+                    weak = None
+                    if ob is not None and a.decl.family == 'string':
+                        body = '\n'.join(a.text.split('\n')[ob.start_line:ob.end_line + 1])
+                        mw = WEAK_STD.search(body)
+                        weak = mw.group(0) if mw else None
                     failed.setdefault(key, {'backend': 'verus', 'message': dg['message'], 'detail': dg['rendered'], 'decl': did,
-                                            'tie': prop == 'C11'})
+                                            'tie': prop == 'C11', 'weak_dep': weak})
                 else:
                     out.extra.setdefault('failing_obligations_of_other_properties', [])
                     if key not in out.extra['failing_obligations_of_other_properties']:
@@ -262,6 +271,13 @@ def finalize(out: Outcome):
         wit = f.get('witness')
         if wit and out.prop in PROP_ENTRIES:
             wit = [w for w in wit if w.get('entry') in PROP_ENTRIES[out.prop]]
+        if f.get('weak_dep') and not wit:
+            # the function calls a std function for which vstd's contract says nothing that relates
+            # it to the character sequence (`str::len`): the proof may fail for that reason alone
+            # (e.g. a byte-length fast path in front of `chars().count()`); without a failing input
+            # on the real code this is undecided, not a violation
+            out.undecided.append('%s: %s fails in a function that calls `%s`, whose assumed contract is too weak to decide it; no failing input found on the real code' % (out.prop, key, f['weak_dep']))
+            continue
         if f.get('tie') and not wit:
             # the obligation ties the spec functions to the code (it belongs to another property);
             # without a failing input for THIS property it is undecided, not a violation
